@@ -935,12 +935,14 @@ def corr_denote(ck):
     # the machine-free graph of the tree (SmilesGraph.denote_graph) against atoms and bonds of the real parser's record
     for strong in (True, False):
         bt.add_chunked(f'b_dgraph {cbool(strong)}', [(t, '-' if e.startswith('!') else ';'.join(e.split(';')[:2])) for t, e in items[strong]], ast_coq, chunk=20)
+    # ... and the machine-free neighbour-order table (SmilesOrder.denote_order) against the `order` dictionary of the real record
+    bt.add_chunked('b_order', [(t, e.split(';')[2]) for t, e in items[False] if not e.startswith('!')], ast_coq, chunk=20)
     ck.extra['ast_trees'] = len(trees)
     ck.sample({'ast_text': ast_text(trees[0]), 'denote': items[True][0][1]})
     saved = coqcases_imports[0]
-    coqcases_imports[0] = 'Tokenize Parser Reader SmilesAst SmilesGraph SmilesText'
+    coqcases_imports[0] = 'Tokenize Parser Reader SmilesAst SmilesGraph SmilesOrder SmilesText'
     try:
-        return bt.run(f'parser(spelled tokens) == Coq denote(tree), its atoms and bonds == Coq denote_graph(tree) (machine-free), spelling == Coq spell(tree), text == Coq spell_text(tree) (and the real tokenizer reads the tokens back from it) on {len(trees)} generated syntax trees, both modes',
+        return bt.run(f'parser(spelled tokens) == Coq denote(tree), its atoms, bonds and neighbour-order table == Coq denote_graph(tree) / denote_order(tree) (machine-free), spelling == Coq spell(tree), text == Coq spell_text(tree) (and the real tokenizer reads the tokens back from it) on {len(trees)} generated syntax trees, both modes',
                       single=ast_coq)
     finally:
         coqcases_imports[0] = saved
